@@ -1167,6 +1167,46 @@ impl CrashJudge<'_> {
                 ));
             }
         }
+        // the restarted store keeps checkpointing in the same millisecond (a burst): two more, each of another state.
+        // None of them may carry the id of a checkpoint of the earlier store that is still retained there, each
+        // restores to its own recording, and the earlier ones are untouched (checked below).
+        let mut burst: Vec<(String, Obs)> = vec![(c_id.clone(), c_rec.clone())];
+        for k in 0..2 {
+            let _ = st.put("~restarted", Value::Integer(12 + k));
+            let rec = observe(&st, self.keys)?;
+            match st.checkpoint(format!("after-restart-{}", k + 2)) {
+                Ok(id) => burst.push((id, rec)),
+                Err(_) => break,
+            }
+        }
+        for (i, (id, _)) in burst.iter().enumerate() {
+            if burst.iter().skip(i + 1).any(|(o, _)| o == id) || self.earlier.iter().any(|(a, _)| &a.id == id) || (b_complete && b_left_a_trace && id == &self.b.id) {
+                return Err(Verdict::fail(
+                    "crash:checkpoint-id-reused-after-restart",
+                    format!(
+                        "crash state [{}]: a restarted store checkpointing {} times in one millisecond handed out {:?}, which is also the id of {}",
+                        state,
+                        burst.len(),
+                        id,
+                        if burst.iter().skip(i + 1).any(|(o, _)| o == id) { "another checkpoint of the same burst" } else { "a retained checkpoint of the earlier store" }
+                    ),
+                ));
+            }
+        }
+        // only the newest of the burst is certainly still retained by the restarted store's own retention
+        if let Some((id, rec)) = burst.last() {
+            if burst.len() > 1 {
+                self.restores += 1;
+                let r = st.restore(id);
+                let obs = observe(&st, self.keys)?;
+                if r.is_err() || !same_obs(&obs, rec) {
+                    return Err(Verdict::fail(
+                        "crash:checkpoint-after-restart-does-not-restore",
+                        format!("crash state [{}]: checkpoint {:?} (number {} of a same-millisecond burst after the restart) restores to {:?} / {} but recorded {}", state, id, burst.len(), r.err(), fmt_obs(&obs), fmt_obs(rec)),
+                    ));
+                }
+            }
+        }
         for (a, suffix) in &self.earlier {
             self.restores += 1;
             let r = st.restore(&a.id);
